@@ -238,14 +238,22 @@ def replay0(rec):
     res = []
     if any(isbad(v) for xk in probe['X'] for v in xk):
         return {'results': [('probe', 'inconclusive', 'probe construction met BAD arithmetic')], 'error': None}
-    after = rec.get('sc', {}).get('when') == 'after'
+    when = rec.get('sc', {}).get('when')
+    after = when in ('after', 'split')
     try:
-        b = build(decl, after_init=after)
+        if when == 'split':
+            # all guesses but the last before the first transcription, the last one after it
+            import copy as _copy
+            d_first = _copy.deepcopy(decl); d_first['init'] = decl['init'][:-1]
+            d_last = _copy.deepcopy(decl); d_last['init'] = decl['init'][-1:]
+            b = build(d_first, after_init=False); b.decl = decl
+        else:
+            b = build(decl, after_init=after)
         if after:
             from observe import transcribe
             from build import apply_guesses
             transcribe(b)
-            quiet(apply_guesses, b, decl)
+            quiet(apply_guesses, b, d_last if when == 'split' else decl)
         o = observe(b)
     except Exception as e:
         return {'results': [('build', 'error', '%s: %s' % (type(e).__name__, str(e).splitlines()[0] if str(e) else ''))],
